@@ -179,6 +179,67 @@ example : (new 2147483647 9223372036854775807 >>= fun x => new 2147483647 (-9223
     = new 2147483647 (9223372036854775807 * -9223372036854775808) :=
   (new_hom 2147483647 9223372036854775807 (-9223372036854775808) 0 (by decide) (by decide)).2.2.1
 
+/-! ### Wave 3: constants, the inverse as a value, histories that feed results back, token sequences -/
+
+/-- `ZERO`, `ONE` are the canonical representatives of 0 and 1 (what `new` returns for them) and `md()` is `M`. -/
+theorem consts_spec (M : Int) (hM : 2 ≤ M) (hM2 : M < 2 ^ 31) :
+    new M 0 = .ok zero ∧ new M 1 = .ok one ∧ zero = red M 0 ∧ one = red M 1 ∧ md M = M ∧ R M zero ∧ R M one := by
+  have h1 : (1 : Int) % M = 1 := Int.emod_eq_of_lt (by omega) (by omega)
+  refine ⟨?_, ?_, ?_, ?_, rfl, ⟨le_refl _, by show (0 : Int) < M; omega⟩, ⟨by decide, by show (1 : Int) < M; omega⟩⟩
+  · rw [new_eq M 0 hM hM2]; simp [zero]
+  · rw [new_eq M 1 hM hM2, h1]; rfl
+  · simp [zero, red]
+  · simp [one, red, h1]
+
+/-- For an operand coprime to `M` the result of `inv` is pinned as a VALUE: it is the executable spec
+    `specInv` (Bézout coefficient by the textbook recursion over unbounded integers, reduced), which is the
+    unique canonical `r` with `r·a ≡ 1 (mod M)`. -/
+theorem inv_value (M a : Int) (hM : 2 ≤ M) (hM2 : M < 2 ^ 31) (ha : R M a) (hg : Int.gcd a M = 1) :
+    inv M a = .ok (specInv M a) ∧ R M (specInv M a) ∧ (specInv M a * a) % M = 1 % M ∧
+    ∀ r, R M r → (r * a) % M = 1 % M → r = specInv M a := by
+  obtain ⟨hR, hs⟩ := specInv_spec M a (by omega) ha.1 hg
+  exact ⟨inv_eq_specInv M a hM hM2 ha hg, hR, hs, fun r hr h => inv_unique M a r _ hr hR h hs⟩
+
+/-- … and `/` likewise: `x / y = x · y⁻¹ mod M` as a value. -/
+theorem div_value (M x y : Int) (hM : 2 ≤ M) (hM2 : M < 2 ^ 31) (hx : R M x) (hy : R M y) (hg : Int.gcd y M = 1) :
+    div M x y = .ok ((x * specInv M y) % M) :=
+  div_eq_specInv M x y hM hM2 hx hy hg
+
+/-- One step of a history on a canonical accumulator (every operation of the type, the same object on both
+    sides, constants, re-construction from `inner()`, `==` folded back into the value): inside the domain the
+    model's step is the spec's step, none of the machine checks fires, and the result is canonical again. -/
+theorem step_spec (M acc : Int) (op : Op) (hM : 2 ≤ M) (hM2 : M < 2 ^ 31) (ha : R M acc)
+    (hd : op.dom M acc = true) :
+    op.stepM M acc = .ok (op.stepS M acc) ∧ R M (op.stepS M acc) :=
+  step_eq M acc op hM hM2 ha hd
+
+/-- Histories: results fed back into further operations, for every length. What the driver prints as `M`
+    (`runM`) is what it prints as `S` (`runS`) whenever every inverse taken on the way is of a value coprime to `M`. -/
+theorem chain_spec (M : Int) (hM : 2 ≤ M) (hM2 : M < 2 ^ 31) (ops : List Op) :
+    ∀ acc, R M acc → domS M acc ops = true → runM M acc ops = (runS M acc ops).map .ok := by
+  induction ops with
+  | nil => intro acc _ _; rfl
+  | cons op ops ih =>
+    intro acc ha hd
+    simp only [domS, Bool.and_eq_true] at hd
+    obtain ⟨h1, h2⟩ := step_eq M acc op hM hM2 ha hd.1
+    simp only [runM, runS, h1, List.map_cons, ih _ h2 hd.2]
+
+/-- a sequence of tokens read one after the other: each is reduced on its own -/
+theorem ios_spec (M : Int) (hM : 2 ≤ M) (hM2 : M < 2 ^ 31) (ts : List Int) :
+    ts.map (readTok M) = ts.map (fun t => .ok (red M t)) :=
+  List.map_congr_left (fun t _ => new_eq M t hM hM2)
+
+example : inv 2147483647 2 = .ok 1073741824 ∧ specInv 2147483647 2 = 1073741824 := by
+  have h := (inv_value 2147483647 2 (by decide) (by decide) ⟨by decide, by decide⟩ (by decide)).1
+  have e : specInv 2147483647 2 = 1073741824 := by
+    simp [specInv, red, bez]
+  exact ⟨by rw [h, e], e⟩
+example : runM 7 3 [.inv, .mul 10, .eqv 1, .selfdiv, .zero, .one, .rsub (-9223372036854775808)]
+    = (runS 7 3 [.inv, .mul 10, .eqv 1, .selfdiv, .zero, .one, .rsub (-9223372036854775808)]).map .ok :=
+  chain_spec 7 (by decide) (by decide) _ 3 ⟨by decide, by decide⟩ (by simp [domS, Op.dom, Op.stepS, specInv, red, bez]; decide)
+example : new 2 0 = .ok zero ∧ new 2 1 = .ok one := ⟨(consts_spec 2 (by decide) (by decide)).1, (consts_spec 2 (by decide) (by decide)).2.1⟩
+
 /-! ### Counter-examples outside the guard (documentation, not part of the claim)
 
 For `M = 2^31` the cast `M as i32` is `i32::MIN`: lifting a negative remainder overflows `i32`
